@@ -15,6 +15,17 @@ CHECKS = {
     },
 }
 
+CHECKS["C03"] = {
+    "text": "For all shapes at once: every dense-matrix operation has the definitional index discipline (no index bounded by one dimension "
+            "is used against another: the rule that found the set_col defect), result shape, operand polarity (Sub: rhs negative, Div: scalar is the divisor), "
+            "co-indexing, full 0..dim ranges, norm orientation, product construction (same column on both sides), transpose/swap/delete/resize "
+            "index arithmetic, and consuming forms forward in operand order.",
+    "design_ref": "DESIGN.md §3 C03",
+    "note": "Decides structure of each operation, not equality with a reference model over all values/histories (not decidable statically). "
+            "Trusted: rustc typeck/callee resolution; the rule engine; Vec semantics (push/drain/clone).",
+    "technique": TECH + "dimension-kind contradiction analysis (Engler-style), polarity/co-index/full-range templates, per-operation definitional patterns",
+}
+
 NOT_APPLICABLE = {
 }
 for _i in range(1, 21):
